@@ -1,12 +1,12 @@
 package lib
 
 import (
-	"time"
-	"verif/harness/vclock"
 	"bytes"
 	"fmt"
 	"runtime/debug"
 	"sync"
+	"time"
+	"verif/harness/vclock"
 
 	"github.com/vmware/go-ipfix/pkg/collector"
 	"github.com/vmware/go-ipfix/pkg/entities"
